@@ -178,6 +178,20 @@ def run_property(pid, tier, seed, spec):
         d = r["diff"]
         diffs.append({"replay": rp, "history": r["name"],
                       "what": "crate and model disagree on history %s at trace line %d (%s): crate `%s` / model `%s`" % (r["name"], d[0], d[1], d[2][:120], d[3][:120])})
+    # the manager's node store and operation cache compare nodes / keys by value: crafted full-hash collisions (unreachable by
+    # random histories: they need handle numbers in the millions) are run on Table<Node> and Cache<OpKey, Ref> directly
+    extra_kind = {"C01": "ntable", "C02": "kcache", "C07": "kcache"}.get(pid)
+    if extra_kind:
+        import standalone
+        citems = standalone.collision_histories(extra_kind, seed)
+        cres = H.pmap(lambda it: standalone.run_one(it, pid, wdir, ("release",)), citems)
+        cov["crafted_collision_histories"] = len(citems)
+        for k, r in enumerate([r for r in cres if r["oracle"]][:2]):
+            rp = H.write_hist(os.path.join(H.WORK, "replays", "%s-collision-%d.hist" % (pid, k)), [l.rstrip("\n") for l in open(r["path"])])
+            failures.append({"replay": rp, "what": r["oracle"][0], "history": r["name"], "lines": r["nlines"]})
+        for k, r in enumerate([r for r in cres if not r["agree"] and not r["oracle"]][:2]):
+            rp = H.write_hist(os.path.join(H.WORK, "replays", "%s-collision-diff-%d.hist" % (pid, k)), [l.rstrip("\n") for l in open(r["path"])])
+            diffs.append({"replay": rp, "history": r["name"], "what": "crate and model disagree on crafted-collision history %s: %r" % (r["name"], r["diff"])})
     cov["failures"] = failures
     cov["diffs"] = diffs
     cov["coq_cross_checked"] = coq_cross_check(pid, items, wdir, 3 if tier == "quick" else 12)
@@ -260,9 +274,11 @@ def thorough_proof(pid, pr):
         return pr
     rc, out = H.sh(["timeout", "1500", "coqchk", "-silent", "-o", "-R", ".", "BddV", "BddV.Properties." + pid], cwd=H.COQ, timeout=1600)
     pr["coqchk"] = out[-1500:]
-    if rc != 0:
+    clean = all(("* %s: <none>" % k) in out for k in ("Axioms", "Constants/Inductives relying on type-in-type",
+                "Constants/Inductives relying on unsafe (co)fixpoints", "Inductives whose positivity is assumed"))
+    if rc != 0 or not clean:
         pr["ok"] = False
-        pr["problems"].append("coqchk failed")
+        pr["problems"].append("coqchk failed or reported axioms / unsafe constructs")
         pr["discharged"] = 0
     pr["checker_cmd"] += " ; coqchk -silent -o -R coq BddV BddV.Properties.%s" % pid
     return pr
